@@ -118,6 +118,17 @@ func scatter(a *anchors, r *rep, fn, read *ssa.Function) {
 		}
 	}
 
+	var normJoin *ssa.Phi
+	var normFallback []int
+	var scatterHeader *ssa.BasicBlock
+	defer func() {
+		if normJoin != nil {
+			normalsKept(a, r, e, fn, normJoin, normFallback)
+		}
+		if scatterHeader != nil {
+			emptyGuardOnly(a, r, e, fn, scatterHeader, *n)
+		}
+	}()
 	for _, ro := range roles {
 		key := name + "#" + ro.name
 		root, off := e.SliceRoot(ro.arg)
@@ -184,6 +195,9 @@ func scatter(a *anchors, r *rep, fn, read *ssa.Function) {
 			continue
 		}
 		res := sx.Cover(idx, sites[0].ivs, length)
+		if scatterHeader == nil {
+			scatterHeader = sites[0].ivs[0].Loop.Header
+		}
 		early := false
 		for _, lp := range sites[0].ivs {
 			for _, x := range sx.LoopExitTargets(lp.Loop) {
@@ -250,6 +264,19 @@ func scatter(a *anchors, r *rep, fn, read *ssa.Function) {
 					continue
 				}
 				if ro.name == "position" {
+					// stop at the record load: what lies beyond (the decoder) is not part of the value map
+					vs := sx.NewSlicer(a.inline).WithEnv(e)
+					vs.StopAt = func(v ssa.Value) bool {
+						if ld, ok := v.(*ssa.UnOp); ok && ld.Op == token.MUL {
+							return sx.ResolveAddr(ld.X).Slice != nil
+						}
+						return false
+					}
+					vs.From(s.st.St.Val, nil, nil)
+					if alt := a.valueChanging(vs); alt != "" {
+						r.Violate("SHAPE-2", k, pos, fmt.Sprintf("position[3·i+%d] is not a plain copy of the stored vertex: it passes through %s", c, alt))
+						continue
+					}
 					ords := map[int]bool{}
 					other := false
 					for f := range fr {
@@ -267,7 +294,9 @@ func scatter(a *anchors, r *rep, fn, read *ssa.Function) {
 						r.Violate("SHAPE-2", k, pos, fmt.Sprintf("position[3·i+%d] is built from %s (other fields: %v); corner %d of record i is Vertex%d", c, cs, other, want, want))
 					}
 				} else {
-					normalsStore(a, r, e, k, pos, s.st.St.Val, fr, vertexOrd, normalVar)
+					if j, fbs := normalsStore(a, r, e, k, pos, s.st.St.Val, fr, vertexOrd, normalVar); j != nil && normJoin == nil {
+						normJoin, normFallback = j, fbs
+					}
 				}
 			}
 		}
@@ -284,7 +313,7 @@ func fieldSetStr(fr map[*types.Var]bool) string {
 }
 
 // normalsStore decides NRM-1 for one store into the normals array.
-func normalsStore(a *anchors, r *rep, e *sx.Env, key, pos string, val ssa.Value, fr map[*types.Var]bool, vertexOrd map[*types.Var]int, normalVar *types.Var) {
+func normalsStore(a *anchors, r *rep, e *sx.Env, key, pos string, val ssa.Value, fr map[*types.Var]bool, vertexOrd map[*types.Var]int, normalVar *types.Var) (join *ssa.Phi, fallbackEdges []int) {
 	want := map[*types.Var]bool{normalVar: true}
 	for f := range vertexOrd {
 		want[f] = true
@@ -403,6 +432,8 @@ func normalsStore(a *anchors, r *rep, e *sx.Env, key, pos string, val ssa.Value,
 		facts = append(facts, "fallback is Normalized")
 	}
 	r.Hold("NRM-1", key, pos, facts...)
+	fallbackDirection(a, r, e, key+".direction", pos, phi.Edges[fb])
+	return phi, fbs
 }
 
 // ---------------------------------------------------------------------------
@@ -722,6 +753,141 @@ func runControls(a *anchors) {
 		}},
 	}
 	sx.RunControls(c, controlFile, ctls)
+}
+
+// emptyGuardOnly: a success return that bypasses the scatter loop is only
+// allowed when there are no records (n == 0).
+func emptyGuardOnly(a *anchors, r *rep, e *sx.Env, fn *ssa.Function, header *ssa.BasicBlock, n sx.Poly) {
+	key := a.p.FuncName(fn) + "#empty-guard"
+	okAll := true
+	var facts []string
+	for _, ret := range sx.SuccessReturns(fn) {
+		if header.Dominates(ret.Block()) {
+			continue
+		}
+		b := ret.Block()
+		guarded := false
+		if len(b.Preds) == 1 {
+			p := b.Preds[0]
+			if iff, ok := p.Instrs[len(p.Instrs)-1].(*ssa.If); ok {
+				if cmp, ok := iff.Cond.(*ssa.BinOp); ok {
+					x, y := e.Int(cmp.X), e.Int(cmp.Y)
+					if c, isC := x.IsConst(); isC && c == 0 {
+						x, y = y, x
+					}
+					c, isC := y.IsConst()
+					onTrue := p.Succs[0] == b
+					if isC && c == 0 && x.Equal(n) && ((cmp.Op == token.EQL && onTrue) || (cmp.Op == token.NEQ && !onTrue)) {
+						guarded = true
+						facts = append(facts, "early return under "+n.String()+" == 0")
+					}
+				}
+			}
+		}
+		if !guarded {
+			okAll = false
+			r.Violate("SHAPE-2", key, a.p.Pos(ret.Pos()), "a success return bypasses the scatter loop without being guarded by an empty record list: triangles are dropped")
+		}
+	}
+	if okAll {
+		r.Hold("SHAPE-2", key, a.p.Pos(fn.Pos()), facts...)
+	}
+}
+
+// normalsKept: when the normals attribute is attached only under a flag, the
+// flag must be raised on every path that takes the stored-normal alternative
+// (otherwise stored normals are dropped from the mesh read back).
+func normalsKept(a *anchors, r *rep, e *sx.Env, fn *ssa.Function, join *ssa.Phi, fallbackEdges []int) {
+	key := a.p.FuncName(fn) + "#normals-kept"
+	var call *ssa.Call
+	ssau.AllInstrs(fn, func(in ssa.Instruction) {
+		if c, ok := in.(*ssa.Call); ok && a.isMeshMethod(c, "SetFloat3Attribute") && len(c.Call.Args) == 3 {
+			if s, ok := sx.ConstStringArg(c, 1); ok && s == a.nrmAttr {
+				call = c
+			}
+		}
+	})
+	if call == nil {
+		return
+	}
+	pos := a.p.Pos(call.Pos())
+	uncond := true
+	after := join.Block()
+	if ls := e.LoopsOf(join.Block()); len(ls) > 0 {
+		after = ls[0].Header
+	}
+	for _, ret := range sx.SuccessReturns(fn) {
+		if after.Dominates(ret.Block()) && !call.Block().Dominates(ret.Block()) {
+			uncond = false
+		}
+	}
+	if uncond {
+		r.Hold("NRM-1", key, pos, "the normals array is attached unconditionally")
+		return
+	}
+	// the guard
+	var cond ssa.Value
+	onTrue := false
+	for b := call.Block(); b != nil && cond == nil; b = b.Idom() {
+		d := b.Idom()
+		if d == nil || len(d.Instrs) == 0 {
+			continue
+		}
+		iff, ok := d.Instrs[len(d.Instrs)-1].(*ssa.If)
+		if !ok {
+			continue
+		}
+		switch {
+		case d.Succs[0].Dominates(call.Block()) && !d.Succs[1].Dominates(call.Block()):
+			cond, onTrue = iff.Cond, true
+		case d.Succs[1].Dominates(call.Block()) && !d.Succs[0].Dominates(call.Block()):
+			cond, onTrue = iff.Cond, false
+		}
+	}
+	if u, ok := cond.(*ssa.UnOp); ok && u.Op == token.NOT {
+		cond, onTrue = u.X, !onTrue
+	}
+	hdr, ok := cond.(*ssa.Phi)
+	if !ok || !onTrue || !join.Block().Parent().Blocks[0].Dominates(hdr.Block()) {
+		a.c.R.Note("NRM-1 %s: guard of the normals attribute not recognised as a loop-carried flag; not judged", key)
+		return
+	}
+	// latch value of the flag: a phi in the join block aligned with the normal's alternatives
+	var latch *ssa.Phi
+	for i, ed := range hdr.Edges {
+		if hdr.Block().Dominates(hdr.Block().Preds[i]) {
+			if p, ok := ed.(*ssa.Phi); ok && p.Block() == join.Block() {
+				latch = p
+			}
+		} else if c, ok := ed.(*ssa.Const); !ok || c.Value == nil || c.Value.String() != "false" {
+			a.c.R.Note("NRM-1 %s: flag does not start as false; not judged", key)
+			return
+		}
+	}
+	if latch == nil {
+		a.c.R.Note("NRM-1 %s: flag is not joined where the normal alternatives are joined; not judged", key)
+		return
+	}
+	isFallback := map[int]bool{}
+	for _, i := range fallbackEdges {
+		isFallback[i] = true
+	}
+	for i, ed := range latch.Edges {
+		if isFallback[i] {
+			continue
+		}
+		okTrue := true
+		for _, lf := range phiLeaves(ed) {
+			if c, ok := lf.(*ssa.Const); !ok || c.Value == nil || c.Value.String() != "true" {
+				okTrue = false
+			}
+		}
+		if !okTrue {
+			r.Violate("NRM-1", key, pos, "a record with a stored normal does not raise the flag under which the normals attribute is attached: stored normals are dropped from the mesh read back")
+			return
+		}
+	}
+	r.Hold("NRM-1", key, pos, "the normals attribute is attached under a flag that every stored-normal alternative sets")
 }
 
 // fallbackPolarity evaluates, over the abstract domain {zero, non-zero} for the
